@@ -35,9 +35,9 @@ def register(pid, engine, technique, text, note, design_ref):
     }
 
 register("C20", "relsim",
-  "deterministic simulation: seeded histories of update_manpage() over an in-memory file system and a jumping simulated clock, refined step by step against a 20-line reference model",
+  "deterministic simulation: seeded histories of update_manpage() (loaded from a private copy of the tree's release.py) over an in-memory file system with a real-scratch-directory arbiter and a jumping simulated clock with a simulated local zone, refined step by step against a 20-line reference model",
   "Seeded search over (page, invocation history, clock evolution): every invocation's resulting page bytes are compared with an independent reference model and the simulated file system's open log proves no-op cases wrote nothing. Sampling, not enumeration: a clean batch is evidence, not proof; that is the right level because the space (all pages x all version strings x all clock evolutions) is unbounded and the function is 30 lines whose every branch the generator reaches thousands of times per second.",
-  "Trusts: the reference model in sim/relsim.py (model_update), SimFS faithfully standing in for open() in text mode on LF/ASCII pages, UTC + C locale for month names. Torn writes are not injected (no atomicity is promised).",
+  "Trusts: the reference model in sim/relsim.py (model_update); SimFS standing in for open() on LF/ASCII pages, with every violation re-judged on a real scratch directory (and a fall-back to it when the code reaches the file system without open()); the clock seam (identity scan of the module's names + sys.modules['datetime'] + module time); C locale for month names. Torn writes are not injected (no atomicity is promised).",
   "DESIGN.md 4.3")
 
 PENDING = {}
